@@ -40,7 +40,7 @@ RULE = ("scripted introductions: NAT type of requester x of introduced peer (4x4
         "its WAN address, response only (via a fourth node), response then request, request then response} x "
         "NAT port policy {preserving, remapped} x LAN numbering drawn from all three RFC 1918 ranges incl. their edges and "
         "colliding /24s x listening ports {all 8090, distinct} x optional noise walks among candidates; plus random "
-        "histories: 3-6 hosts with random ages, 6-25 random walk/ask ops in either of two overlays, closed by an introduction of two nodes that do not know each other (oracle); plus the classes lan-collision, foreign-entry (known findings), bootstrap (blacklisted introducer), own-machine (introducer behind a box, peer on its machine), capacity (introducer at max_peers), remap-introduced / remap-requester / roam-requester (NAT mapping renewed, node moved to another public ip), churn (introducer with max_peers=-1 drops and re-verifies the peer), stale-estimate and lan-change (known findings 3, 4), port-reuse (a released WAN port of another peer is given to the requester), restart (the requester starts again from its Network snapshot: addresses known without introducer). distinct = distinct (configuration, op list); non-trivial = at "
+        "histories: 3-6 hosts with random ages, 6-25 random walk/ask ops in either of two overlays, closed by an introduction of two nodes that do not know each other (oracle); plus the classes lan-collision, foreign-entry (known findings), bootstrap (blacklisted introducer), own-machine (introducer behind a box, peer on its machine), capacity (introducer at max_peers), remap-introduced / remap-requester / roam-requester (NAT mapping renewed, node moved to another public ip), churn (introducer with max_peers=-1 drops and re-verifies the peer), stale-estimate and lan-change (known findings 3, 4), port-reuse (a released WAN port of another peer is given to the requester), restart (the requester starts again from its Network snapshot: addresses known without introducer), tracker (the introducer is scripts/tracker_service.py), peer-limit (introduced peer at its overlay's max_peers with more peers in another overlay), strategy (contact attempt by the stock RandomWalk on a virtual clock, incl. its time-out clean-up). distinct = distinct (configuration, op list); non-trivial = at "
         "least one packet was dropped by a NAT filter or delivered over a LAN segment")
 TRUSTED_BASE = [
     "tools/gen_c13.py: AST translation of the address decisions of community.py (assignments, if/elif chains, list appends, tuple/attribute/index expressions); IPv4 only, isinstance(x, UDPv4Address) is translated to true",
@@ -238,7 +238,29 @@ def new_mapping(lay, w, i: int, roam: bool):
     return b, (box["ip"], port)
 
 
+class TrackerView:
+    """one overlay's view of a tracker host (scripts/tracker_service.py EndpointServer serves every prefix with one
+    Network): what the harness queries of a Community, answered from the tracker's Network for that service"""
+
+    def __init__(self, trk, cls):
+        self.trk, self.community_id, self._prefix = trk, cls.community_id, b"\x00" + cls.version + cls.community_id
+        self.network, self.endpoint = trk.network, trk.endpoint
+
+    def get_prefix(self):
+        return self._prefix
+
+    def get_peers(self):
+        return self.network.get_peers_for_service(self.community_id)
+
+    def get_walkable_addresses(self):
+        return self.network.get_walkable_addresses(self.community_id)
+
+    def __getattr__(self, name):      # my_estimated_wan/lan, global_time, update_global_time, ensure_blacklisted, …
+        return getattr(self.trk, name)
+
+
 BRANCHES: dict = {}
+DROPPED_VERIFIED: list = []      # (Network id, address, keys of the verified peers that held it) per remove_by_address call
 
 
 def _hit(name: str):
@@ -324,6 +346,19 @@ def install_observers(community_cls):
             _hit("observer-error")
         return r
 
+    orig_rba = Network.remove_by_address
+
+    def remove_by_address(self, address):
+        try:
+            holders = [p.public_key.key_to_bin() for p in self.verified_peers if address in p.addresses.values()]
+            _hit("remove_by_address:" + ("drops-verified-peer" if holders else "unverified-address"))
+            if holders:
+                DROPPED_VERIFIED.append((id(self), tuple(address), holders))
+        except Exception:
+            _hit("observer-error")
+        return orig_rba(self, address)
+
+    Network.remove_by_address = remove_by_address
     Network.add_verified_peer = add_verified_peer
     Network.discover_address = discover_address
     Network.get_walkable_addresses = get_walkable_addresses
@@ -356,7 +391,7 @@ REQUIRED_BRANCHES = [
     "net:drop:unroutable",
     "msg:req0", "msg:req1", "msg:resp0", "msg:resp1", "msg:preq0", "msg:preq1", "msg:punc0", "msg:punc1",
     "op:remap", "op:roam", "op:remove-peer", "op:restart", "op:ask", "op:walk-walkable", "op:walk-junk", "op:set-age",
-    "op:blacklist", "op:walk-self",
+    "op:blacklist", "op:walk-self", "class:tracker", "class:peer-limit", "class:strategy", "strategy:steps",
 ]
 
 
@@ -406,6 +441,40 @@ class World:
         epmod.get_lan_addresses = lan_addresses
         com.choice = choice
         env["branches"] = install_observers(Community)
+        # the stock discovery strategy on a virtual clock, its randomness scripted
+        import ipv8.peerdiscovery.discovery as disc
+        env["now"] = 0.0
+        env["rw_pick"] = []
+        disc.time = lambda: env["now"]
+        disc.randint = lambda a, b: 255            # never "go back to the tracker" instead of walking
+
+        def rw_choice(seq):
+            pick = min(seq, key=lambda a: (ip2int(a[0]), a[1]))
+            env["rw_pick"].append(pick)
+            return pick
+        disc.choice = rw_choice
+        env["RandomWalk"] = disc.RandomWalk
+        # scripts/tracker_service.py (the production bootstrap server), its key and its choice scripted
+        import importlib.util
+        import types
+
+        import vlib
+        spec = importlib.util.spec_from_file_location("c13_tracker_service", str(vlib.REPO / "scripts" / "tracker_service.py"))
+        ts = importlib.util.module_from_spec(spec)
+        spec.loader.exec_module(ts)
+        ts.random = types.SimpleNamespace(choice=choice)
+        real_crypto = ts.default_eccrypto
+
+        class CryptoShim:
+            def generate_key(self, _level):
+                return env["tracker_key"]
+
+            def __getattr__(self, name):
+                return getattr(real_crypto, name)
+        ts.default_eccrypto = CryptoShim()
+        env["tracker_cls"] = ts.EndpointServer
+        logging.getLogger("EndpointServer").addHandler(env["catch"])
+        logging.getLogger("EndpointServer").propagate = False
         cls._env = env
         return env
 
@@ -441,6 +510,40 @@ class World:
         self.expect.append(str(h.idx))
         return h.idx
 
+    def add_tracker_host(self, lan, wan, box, typ) -> int:
+        """a host that runs the tracker service instead of ordinary overlays"""
+        h = self.net.add_host(lan, wan, box, typ)
+        h.ep = self.e["ep"](self.net, h)
+        key = self.e["keys"][h.idx]
+        self.e["tracker_key"] = key
+        self.net.current = h
+        try:
+            h.tracker = self.e["tracker_cls"](h.ep)
+        finally:
+            self.net.current = None
+        h.nodes = [TrackerView(h.tracker, c) for c in self.e["cls"]]
+        h.node = h.nodes[0]
+        self.keyidx[key.pub().key_to_bin()] = h.idx
+        self.lines.append(f"host {ip2int(lan[0])} {lan[1]} {ip2int(wan[0])} {wan[1]} {box} {TYPES.index(typ)}")
+        self.expect.append(str(h.idx))
+        self.lines.append(f"tracker {h.idx}")
+        self.expect.append("ok")
+        return h.idx
+
+    def rwstep(self, i: int, s: int, now: int) -> list:
+        """one take_step() of the stock RandomWalk strategy of node i / overlay s at virtual time `now`"""
+        h = self.net.hosts[i]
+        walkers = h.__dict__.setdefault("walkers", {})
+        if s not in walkers or walkers[s].overlay is not h.nodes[s]:
+            walkers[s] = self.e["RandomWalk"](h.nodes[s])
+        self.e["now"] = float(now)
+        self.e["rw_pick"].clear()
+
+        def line():
+            pk = self.e["rw_pick"][-1] if self.e["rw_pick"] else ("0.0.0.0", 0)
+            return f"rwstep {i} {s} {now} {ip2int(pk[0])} {pk[1]}"
+        return self._op(line, h, walkers[s].take_step)
+
     def set_pref(self, i: int, pref: list[int]):
         self.prefs[i] = list(pref)
         self.lines.append(f"pref {i} [{','.join(map(str, pref))}]")
@@ -460,15 +563,16 @@ class World:
         for h in self.net.hosts:
             if h.node is not None:
                 h.node.endpoint.close()
-                for nd in h.nodes:
+                for nd in ([h.tracker] if hasattr(h, "tracker") else h.nodes):
                     nd.cancel_all_pending_tasks()
         self.e["world"] = None
 
     # --- decoding packets for the trace ----------------------------------------------------------------------------
     def describe(self, data: bytes, count: bool = False) -> str:
         import ipv8.messaging.payload as pl
-        svc = next((j for j, nd in enumerate(self.net.hosts[0].nodes) if nd.get_prefix() == data[:22]), 0)
-        node = self.net.hosts[0].nodes[svc]
+        svc = self.svc_of(data)
+        dec = next(h for h in self.net.hosts if not hasattr(h, "tracker"))
+        node = dec.nodes[svc if svc < len(dec.nodes) else 0]
         mid = data[22]
         for cname, (kind, ns) in KIND_BY_CLASS.items():
             cls = getattr(pl, cname)
@@ -517,7 +621,8 @@ class World:
                           for s, d, data, out in self.net.trace)
 
     def svc_of(self, data: bytes) -> int:
-        return next((j for j, nd in enumerate(self.net.hosts[0].nodes) if nd.get_prefix() == data[:22]), 0)
+        # 9 = a prefix that belongs to no overlay of the simulation (e.g. a tracker's private community id)
+        return next((j for j, c in enumerate(self.e["cls"]) if b"\x00" + c.version + c.community_id == data[:22]), 9)
 
     # --- operations (executed on the real nodes; the same line goes to the model) -----------------------------------
     def _op(self, line: str, host: Host, fn) -> list:
@@ -532,7 +637,7 @@ class World:
         finally:
             self.net.current = None
         done = self.net.drain()
-        self.lines.append(line)
+        self.lines.append(line() if callable(line) else line)
         self.expect.append("nosend" if raised and not self.net.trace else (self.trace_str() if done else "fuel"))
         return list(self.net.trace)
 
@@ -589,7 +694,8 @@ class World:
 
     def set_max_peers(self, i: int, m: int):
         for nd in self.net.hosts[i].nodes:
-            nd.max_peers = m
+            if not isinstance(nd, TrackerView):
+                nd.max_peers = m
         self.lines.append(f"maxpeers {i} {m}")
         self.expect.append("ok")
 
@@ -732,6 +838,8 @@ def scripted(ctx: Ctx, cfg: dict, use_model: bool, batch: list):
             R = w.add_host(*(lay.public_host() if pl in ("public", "rPub") else lay.boxed_host(lay.new_box())), tR)
             pport = ilan[1] + 1 + rng.randrange(50)
             P = w.add_host((ilan[0], pport), (iwan[0], pport), bI, tP)
+        elif klass == "tracker":
+            I = w.add_tracker_host(*lay.public_host(), "none")
         else:
             I = w.add_host(*lay.public_host(), "none")
         if klass == "own-machine":
@@ -769,7 +877,7 @@ def scripted(ctx: Ctx, cfg: dict, use_model: bool, batch: list):
             QR = w.add_host(*lay.boxed_host(w.net.hosts[R].box), rng.choice(TYPES))
             extras.append(QR)
         X = w.add_host(*lay.public_host(), "none") if (cfg["history"] in ("response", "resp+req")
-                                                        or klass in ("own-machine", "foreign-entry")) else None
+                                                        or klass in ("own-machine", "foreign-entry", "peer-limit")) else None
         Q = None
         if klass == "lan-collision":
             # a third peer on ANOTHER LAN that happens to have the introduced peer's full LAN address (same home-router
@@ -905,6 +1013,12 @@ def scripted(ctx: Ctx, cfg: dict, use_model: bool, batch: list):
                 w.walk(QR, iaddr, s)
                 w.remap(R, hosts[R].box, old)
                 ctx.count("port-reuse:requester-on-released-port")
+            if klass == "peer-limit" and s == 0:
+                # the introduced peer has a further peer in overlay 1 (same Network); its limit is what overlay 0 holds now
+                w.walk(P, hosts[X].wan, 1)
+                w.set_max_peers(P, len(w.peers(P, 0)))
+                ctx.count("peer-limit:network-peers-above-limit:%s"
+                          % (len(hosts[P].node.network.verified_peers) > len(w.peers(P, 0))))
             if klass == "lan-collision" and s == 0:
                 w.walk(R, hosts[Q].wan, s)        # the requester gets to know Q (Q's response tells its LAN address)
             if klass == "foreign-entry" and s == 0:
@@ -949,8 +1063,23 @@ def scripted(ctx: Ctx, cfg: dict, use_model: bool, batch: list):
             cause = diagnose(w, R, P, s, named)
             w.query_all()
             ev2 = []
-            for a in handed:
-                ev2 += w.walk(R, a, s)
+            if klass == "strategy":
+                # the contact attempt is made by the stock RandomWalk strategy: two steps one second apart, then two more
+                # after the 3 s node time-out (the unanswered probe is cleaned up)
+                DROPPED_VERIFIED.clear()
+                for t in (100, 101, 105, 106):
+                    ev2 += w.rwstep(R, s, t)
+                ctx.count("strategy:steps", 4)
+                pk = w.e["keys"][P].pub().key_to_bin()
+                hit = [d for d in DROPPED_VERIFIED if d[0] == id(hosts[R].node.network) and pk in d[2]]
+                if hit:
+                    ctx.oracle_fail("RandomWalk.take_step:verified-peer-dropped-on-probe-timeout",
+                                    f"the requester's walker removed the verified introduced peer when its unanswered probe to "
+                                    f"{hit[0][1]} (an address of that peer) timed out",
+                                    {"kind": "scripted", "cfg": {k: v for k, v in cfg.items() if k != "overlay"}})
+            else:
+                for a in handed:
+                    ev2 += w.walk(R, a, s)
             w.query_all()
             ctx.count("pre:already-peers-in-overlay:%s" % already)
             check_scripted(ctx, w, dict(cfg, overlay=s), R, P, I, ev1, ev2, handed, s, cause)
@@ -1353,7 +1482,10 @@ CLASSES = {
     "stale-estimate": (["same"], ("old", "new")),     # known finding 3: P roams, refreshed at I through the other overlay only
     "lan-change": (["diff", "pPub"], ("old", "new")),  # known finding 4: P moves into R's LAN, my_estimated_lan is cached
     "port-reuse": (["diff", "same", "pPub"], ("old", "new")),   # a released WAN port of another peer is given to the requester
-    "restart": (["diff", "same", "public"], ("old", "new")),           # requester restarts from its snapshot (addresses without introducer)
+    "restart": (["diff", "same", "public"], ("old", "new")),
+    "tracker": (PLACEMENTS, ("old",)),                 # the introducer is scripts/tracker_service.py (answers under the requester's prefix)
+    "peer-limit": (["diff", "same"], ("old", "new")),  # introduced peer at max_peers in this overlay, more peers in the other
+    "strategy": (["diff", "same", "rPub"], ("old", "new")),   # contact attempt by the stock RandomWalk incl. its time-outs           # requester restarts from its snapshot (addresses without introducer)
 }
 
 
